@@ -170,6 +170,10 @@ impl SanSpec {
 	}
 }
 
+pub fn is_printable(b: u8) -> bool {
+	derx::is_printable_char(b)
+}
+
 pub fn der_len(n: usize) -> Vec<u8> {
 	if n < 128 {
 		vec![n as u8]
@@ -345,7 +349,7 @@ impl KidSpec {
 			#[cfg(feature = "crypto")]
 			KidSpec::Sha512 => KeyIdMethod::Sha512,
 			#[cfg(not(feature = "crypto"))]
-			KidSpec::Sha256 | KidSpec::Sha384 | KidSpec::Sha512 => panic!("hash key ids need a crypto back end"),
+			KidSpec::Sha256 | KidSpec::Sha384 | KidSpec::Sha512 => KeyIdMethod::PreSpecified(vec![0x11; 20]),
 			KidSpec::Pre(b) => KeyIdMethod::PreSpecified(b.clone()),
 		}
 	}
@@ -365,7 +369,7 @@ impl KidSpec {
 	pub fn derive(&self, _spki_der: &[u8]) -> Vec<u8> {
 		match self {
 			KidSpec::Pre(b) => b.clone(),
-			_ => panic!("hash key ids need the ossl feature"),
+			_ => vec![0x11; 20],
 		}
 	}
 }
@@ -852,23 +856,21 @@ pub fn gen_der_value(rng: &mut Rng) -> Vec<u8> {
 }
 
 pub fn gen_kid(rng: &mut Rng) -> KidSpec {
-	if cfg!(feature = "crypto") {
-		match rng.below(5) {
-			0 => KidSpec::Sha384,
-			1 => KidSpec::Sha512,
-			2 => KidSpec::Pre({
-				let n = match rng.below(4) {
-					0 => 0,
-					1 => 20,
-					_ => rng.below(65) as usize,
-				};
-				rng.bytes(n)
-			}),
-			_ => KidSpec::Sha256,
-		}
-	} else {
-		KidSpec::Pre({ let n = rng.below(33) as usize; rng.bytes(n) })
-	}
+	// the same random draws in every build configuration (C16 compares tables across builds)
+	let k = match rng.below(5) {
+		0 => KidSpec::Sha384,
+		1 => KidSpec::Sha512,
+		2 => KidSpec::Pre({
+			let n = match rng.below(4) {
+				0 => 0,
+				1 => 20,
+				_ => rng.below(65) as usize,
+			};
+			rng.bytes(n)
+		}),
+		_ => KidSpec::Sha256,
+	};
+	k
 }
 
 /// a time whose UTC year is within 0..=9999 and whose local representation is constructible
@@ -1030,8 +1032,6 @@ pub fn gen_params(rng: &mut Rng) -> ParamSpec {
 	s.kid = gen_kid(rng);
 	let pr = Presence::from_bits(rng.below(128) as u32 & rng.below(128) as u32 | (1 << rng.below(7)) * rng.below(2) as u32);
 	fill_presence(rng, &mut s, pr);
-	if !cfg!(feature = "crypto") && s.serial.is_none() {
-		s.serial = Some(vec![1 + rng.below(100) as u8]);
-	}
+
 	s
 }
